@@ -41,3 +41,8 @@ CHECKS["C09"] = {"pkg": "txn", "shards": 12, "fuzz": [{"target": "FuzzC09_Decode
     "technique": "property-based testing (rapid constructive generator + rule-breaking mutations) against an independent well-formedness predicate; decode/encode round-trip oracle; native go fuzzing of the decoder in thorough",
     "text": "Generated-input search: Verify()/VerifyUnsigned() must equal an independently written predicate (big-int sums, reference encoder, textbook-curve signature judgement) on well-formed transactions carrying 0-2 targeted rule violations; every byte string either fails to decode or re-encodes identically; 65535/65536-element boundaries are exercised explicitly.",
     "note": "trusted: reference encoder (harness/internal/ref/txref) and textbook curve; the high-s band of C10 is not generated"}
+
+CHECKS["C11"] = {"pkg": "txn", "shards": 12,
+    "technique": "property-based testing (rapid boundary-aimed generator) against a big-integer model of the soft and hard transaction rules",
+    "text": "Generated-input search with a model oracle: VerifySingleTxnSoftConstraints / VerifySingleTxnHardConstraints / VerifyBlockTxnConstraints must accept exactly what the math/big model accepts and report failures with the right constraint type; generators aim output hours at ceil(total/burn)+-1, sizes at the limit +-1, coins at precision boundaries, accruals at the overflow classes and inputs at locked distribution addresses.",
+    "note": "trusted: harness/internal/ref/rules (model), textbook curve for signatures; verification parameters are drawn only from the range params.VerifyTxn.Validate accepts"}
